@@ -82,6 +82,13 @@ def more_texts():
                     out["pool-%s-%s" % (k.replace("/", "-"), fn.replace("/", "-"))] = text
     except Exception:
         pass
+    # every expression form in every syntactic position (the family C12 compares with and without the memo table)
+    try:
+        import props.c12 as c12
+        for k, text in c12.forms_in_positions().items():
+            out[k.replace("/", "-")] = text
+    except Exception:
+        pass
     # arbitrary Unicode: texts drawn (VERIF_SEED) from the language's own tokens mixed with characters of every UTF-8 width,
     # controls, line separators and characters the lexer does not know
     import random
